@@ -52,6 +52,7 @@ struct Payload {
 static const long MAGIC = 0x5ca1ab1e;
 struct MatchData {
   long label, tag, fk, fv;
+  char pad[1024] = {0}; // IprobeSimcall's constructor reads match_data as an smpi::Request (tag_ for the MC): keep it in bounds
 };
 struct Op {
   long kind, obj, size, tag, fk, fv, rate;
@@ -274,7 +275,7 @@ static void actor_code(int me, std::vector<Op> ops)
         g_mb.at(op.obj)->set_receiver(op.size < 0 ? nullptr : g_actors.at(op.size));
         break;
       case 9: {
-        auto* md = new MatchData{me, op.tag, op.fk, op.fv};
+        auto* md = new MatchData{filtered ? me : -1, op.tag, op.fk, op.fv}; // unfiltered requests are anonymous (label -1)
         auto act = g_mb.at(op.obj)->iprobe(sg4::Mailbox::IprobeKind::RECV, &match_fun, md);
         logf("B %ld %ld", seq, act ? payload_id(static_cast<ka::CommImpl*>(act.get())->src_buff_) : 0L);
         break;
@@ -403,10 +404,13 @@ static int run_case(const std::vector<long long>& v)
   return 0;
 }
 
-int main()
+int main(int argc, char** argv)
 {
   std::vector<long long> v;
+  long skip = argc > 1 ? atol(argv[1]) : 0; // debugging aid: parse but do not run the first cases
   while (drv::next_case(v)) {
+    if (skip-- > 0)
+      continue;
     fflush(stdout);
     pid_t pid = fork();
     if (pid == 0) {
